@@ -20,7 +20,7 @@ def run(tier, seed):
     S = lambda df, D, **kw: bc.consts("sock", DATA | {"wmr", "shut", "free"}, D, drains=(0, 1, 99),
                                       wms=((0, 0), (0, 2)), durs=(0,), defer=df, **kw)
     plan = {
-        "mc": [("C17_mc_pair", bc.consts("pair", DATA | {"flush", "finish", "wmr"}, 5 if q else 6, sizes=(1, 2), drains=(0, 99),
+        "mc": [("C17_mc_pair", bc.consts("pair", DATA | {"flush", "finish", "wmr"}, 4 if q else 6, sizes=(1, 2), drains=(0, 99),
                                          wms=((0, 0), (0, 1)), durs=(0,), script_until=1), inv)],
         "gen": [
             # every history of 3 (4) steps of the data-path alphabet on a pair
@@ -28,7 +28,7 @@ def run(tier, seed):
                                                        sizes=(1, 3), drains=(0, 99), wms=((0, 0),), durs=(0,), script_until=1),
                  units=(1, 5000)),
             dict(name="C17_pair_rand", consts=P(10 if q else 14, extras=("none", "w1", "disR", "enR")),
-                 simulate=40 if q else 400, units=(1, 1000) if q else (1, 1000, 70000)),
+                 simulate=25 if q else 400, units=(1, 1000) if q else (1, 1000, 70000)),
             dict(name="C17_filt_id", consts=F("id", 9 if q else 12), simulate=15 if q else 150, units=(1, 3000)),
             dict(name="C17_filt_one", consts=F("one", 9 if q else 12), simulate=15 if q else 150, units=(1, 3000)),
             dict(name="C17_filt_two", consts=F("two", 9 if q else 12), simulate=15 if q else 150, units=(1, 3000)),
@@ -43,8 +43,7 @@ def run(tier, seed):
         "known": [dict(name="C17_known_eof", key="pair-eof-before-data",
                        consts=bc.consts("pair", {"write", "enable", "loop", "wmr", "flush", "finish"}, 5, sizes=(1, 3),
                                         wms=((0, 2), (0, 1)), durs=(0,), allow=("pair_eof_before_data",)), simulate=40)],
-        "monitor": None,
-        "need": ["write", "flush", "cb:r", "cb:e:f17", "shut", "free"],
+                "need": ["write", "flush", "cb:r", "cb:e:f17", "shut", "free"],
         "rule": "TLC enumerates every history of the stated depth (pair_exh) or simulates random histories of the Bev "
                 "specification for pair, filter-over-pair (3 filter functions) and socket bufferevents; each is replayed on "
                 "the real library (several byte sizes per unit) and after every step the callbacks (kind, flags, input "
